@@ -20,6 +20,10 @@ struct CaseP {
     /// the same program with `project |x| { body }` replaced by `body` (valid for ground x)
     reference: Program,
     visits: usize,
+    /// the project goal is built inside a closure body, i.e. anew for every state that enters
+    /// the closure (as in every relation written as a function): reaching it repeatedly works
+    /// on the pinned tree and is not the recorded finding
+    rebuilt_per_visit: bool,
 }
 
 fn strip_project(g: &G) -> G {
@@ -77,7 +81,19 @@ fn cases() -> Vec<CaseP> {
             for (body, v) in forms {
                 let program = Program { nq: 2, body: body.clone() };
                 let reference = Program { nq: 2, body: body.iter().map(strip_project).collect() };
-                out.push(CaseP { program, reference, visits: v });
+                out.push(CaseP { program, reference, visits: v, rebuilt_per_visit: false });
+            }
+            // the project goal behind a closure (one closure goal object entered by every state
+            // of the generator), directly and below a fresh clause
+            let forms2: Vec<Vec<G>> = vec![
+                vec![g.clone(), G::Closure(Box::new(proj.clone()))],
+                vec![g.clone(), G::Fresh(vec![4], vec![G::Closure(Box::new(G::Conj(vec![G::Eq(T::V(4), T::I(0)), proj.clone()])))])],
+                vec![G::Closure(Box::new(G::Conj(vec![g.clone(), G::Closure(Box::new(proj.clone()))])))],
+            ];
+            for body in forms2 {
+                let program = Program { nq: 2, body: body.clone() };
+                let reference = Program { nq: 2, body: body.iter().map(strip_project).collect() };
+                out.push(CaseP { program, reference, visits: *visits, rebuilt_per_visit: true });
             }
         }
     }
@@ -111,10 +127,16 @@ fn check(c: &CaseP, index: usize) -> (Vec<Violation>, &'static str) {
         }
     }
     expected.sort();
-    let class = if c.visits >= 2 { "project-reached-2plus-times" } else { "project-reached-once" };
+    let class = if c.visits >= 2 && c.rebuilt_per_visit {
+        "project-in-closure-reached-2plus-times"
+    } else if c.visits >= 2 {
+        "project-reached-2plus-times"
+    } else {
+        "project-reached-once"
+    };
     match &out.end {
         End::Panic(m) => {
-            let revisit = c.visits >= 2 && m.contains("Cannot project non-Projection");
+            let revisit = c.visits >= 2 && !c.rebuilt_per_visit && m.contains("Cannot project non-Projection");
             viols.push(mk(if revisit { "project-revisit-panic" } else { "panic" }, format!("{} (the project goal is reached by {} state(s))", m, c.visits), panic_site(m)));
         }
         End::Exhausted => {
@@ -131,7 +153,7 @@ fn check(c: &CaseP, index: usize) -> (Vec<Violation>, &'static str) {
 }
 
 pub fn run(ctx: &mut Ctx) {
-    ctx.set("rule", json!("E3: 10 generators that reach the project goal with 1..4 states (bindings, conde of 2-4 arms, nested conde, a partially bound list completed per branch, a generator behind a closure, a binary Disj reaching it twice with the same value, the projected variable aliased to another variable whose value arrives later - directly, through a chain, as a list) x 7 bodies (q == x; q == [x, x]; an fngoal that inspects the projected term structurally; the read delayed behind a closure; a conde of reads; a branching body whose read is delayed; doubly delayed) x 4 nestings. Oracle: for ground values `project |x| { body }` has the answers of `body`; no panic. distinct_nontrivial = cases whose project goal is reached by >= 2 states."));
+    ctx.set("rule", json!("E3: 10 generators that reach the project goal with 1..4 states (bindings, conde of 2-4 arms, nested conde, a partially bound list completed per branch, a generator behind a closure, a binary Disj reaching it twice with the same value, the projected variable aliased to another variable whose value arrives later - directly, through a chain, as a list) x 7 bodies (q == x; q == [x, x]; an fngoal that inspects the projected term structurally; the read delayed behind a closure; a conde of reads; a branching body whose read is delayed; doubly delayed) x 7 nestings (directly after the generator, below a fresh clause, in a conde arm next to a failing arm, generator and project inside one arm; and with the project goal behind a closure - the form every relation written as a function has - directly, below fresh, and with the generator inside an outer closure: there the goal is rebuilt for every entering state, so every one of the 2..4 states must see its own value). Oracle: for ground values `project |x| { body }` has the answers of `body`; no panic. distinct_nontrivial = cases whose project goal is reached by >= 2 states."));
     let cs = cases();
     let sel: Vec<usize> = match &ctx.replay {
         Some(r) if r.family == "c11" => vec![r.index],
@@ -142,7 +164,7 @@ pub fn run(ctx: &mut Ctx) {
     let mut nt = 0u64;
     for (vs, class) in res {
         ctx.hist(class, 1);
-        if class == "project-reached-2plus-times" {
+        if class != "project-reached-once" {
             nt += 1;
         }
         for v in vs {
@@ -161,6 +183,7 @@ pub fn run(ctx: &mut Ctx) {
     if ctx.replay.is_none() {
         ctx.require_nonzero("project-reached-2plus-times");
         ctx.require_nonzero("project-reached-once");
+        ctx.require_nonzero("project-in-closure-reached-2plus-times");
     }
     ctx.assume("project goals are built as the macro builds them: the projected names are rebound to Projection terms once, when the goal is constructed (the surface form is exercised by C14)");
 }
